@@ -159,6 +159,11 @@ def run(ctx):
     for body in (b"signed payload bytes", b""):
         bases.append(sign(dict(method="PUT", path="/my-bucket/signed-upload", query=[], headers=[("host", "s3.example.com"), ("x-amz-date", ISO)],
                                body=body, mode="signed", kind="put")))
+    # header values with runs of 1 .. 7 inner spaces (and tabs beside them): every run counts as one space in the canonical form
+    for n in range(1, 8):
+        bases.append(sign(dict(method="GET", path="/my-bucket/spaces-%d" % n, query=[], headers=[("host", "s3.example.com"), ("x-amz-date", ISO),
+                               ("x-amz-meta-run", "a" + " " * n + "b" + " " * (8 - n) + "c"), ("x-amz-meta-edge", " " * n + "v" + " " * n)],
+                               body=b"", mode="signed", kind="get")))
     # the AWS documentation GET example (non-vacuity of the reference signer)
     ex = sign(dict(method="GET", path="/test.txt", query=[], headers=[("host", "examplebucket.s3.amazonaws.com"), ("range", "bytes=0-9"),
                    ("x-amz-date", "20130524T000000Z")], body=b"", mode="signed", kind="get"), iso="20130524T000000Z")
@@ -215,6 +220,11 @@ def run(ctx):
         hs2 = [h for nm in names_order for h in rq["headers"] if h[0] == nm]
         add("rewrite-header-order", rq, "accept" if spec_ok else "dup", headers=hs2)
         add("rewrite-edge-space", rq, "accept" if spec_ok else "dup", headers=[(n, ("  " + v + " \t") if n.startswith("x-amz-meta") else v) for n, v in rq["headers"]])
+        if any(n == "x-amz-meta-run" for n, _ in rq["headers"]):
+            # the same value written with other runs of spaces is the same canonical request; one space less between two words is not
+            add("rewrite-inner-space-runs", rq, "accept", headers=[(n, "a b    c") if n == "x-amz-meta-run" else (n, v) for n, v in rq["headers"]])
+            add("rewrite-inner-space-runs", rq, "accept", headers=[(n, "a      b c") if n == "x-amz-meta-run" else (n, v) for n, v in rq["headers"]])
+            add("mut-inner-space-removed", rq, "reject", headers=[(n, "ab c") if n == "x-amz-meta-run" else (n, v) for n, v in rq["headers"]])
         lowp = pct(rq["path"].encode()).replace("%2B", "%2b").replace("%C3", "%c3")
         add("rewrite-pct-case", rq, "accept" if spec_ok else "dup", raw_path=lowp)
         alt = "".join("%%%02X" % ord(c) if c in "ay" and rng.chance(1, 2) else c for c in pct(rq["path"].encode()))
